@@ -11,14 +11,17 @@
    repairs of dist.rs (last table entry clipped, sf[0] below the minimum score, fractional
    scale for ranges above 1000, f64 offset).
 
-   Specification side (DistInst): [tail_exact m bg t] = P(S >= t) and
+   Specification side (DistInst): [tail_words m bg t] = P(S >= t) as the finite sum over all
+   K^M words of (product of the background weights of the word's symbols) * [S(word) >= t];
+   [tail_exact] is the same probability by recursion over the rows
+   (C11_tail_is_word_sum).  [tail_exact m bg t] = P(S >= t) and
    [tailD data bg k] = P(D >= k), [pmfD] = P(D = k), for independent symbols drawn with
    the weights [bg]; S = sum of the selected cells of the scoring matrix (a -inf cell is
    never reached), D = sum of the selected discretised cells (i32::MIN = skipped). *)
 From Coq Require Import List ZArith QArith Qround Qabs Bool Arith Lia.
 From LMBase Require Import Res ListX IEEE.
 From LMDist Require Import DistModel DistInst DistProofs DistConv DistTail DistBuild DistThms
-  DistDyadic DistCheckProofs DistStretch DistIEEE DistTotal DistNaive.
+  DistDyadic DistCheckProofs DistStretch DistIEEE DistTotal DistNaive DistWords.
 Import ListNotations.
 Local Open Scope Q_scope.
 
@@ -46,6 +49,16 @@ Theorem C11_sf_monotone_range_ieee : forall pdf sf mn mx,
   Forall (fun x => F64.is_finite x = true) sf.
 Proof. exact sf_monotone_range_F64. Qed.
 
+(* ... in particular for the table of the bit-exact model of a built distribution, whenever
+   its pdf is finite and non-negative *)
+Theorem C11_table_ieee : forall m bg d,
+  f64_build m bg = Ok d ->
+  (forall pdf, pdf_of F64Ops bg (d_data d) = Ok pdf ->
+     Forall (fun x => F64.is_finite x = true /\ F64.le F64.zero x = true) pdf) ->
+  noninc f64_leP (d_sf d) /\ Forall (in01 F64Ops f64_leP) (d_sf d) /\
+  Forall (fun x => F64.is_finite x = true) (d_sf d).
+Proof. exact table_F64. Qed.
+
 (* |D(w) - (S(w) - M*offset)*scale| <= M/2 for every word w through finite cells, and D(w)
    is inside the table. *)
 Theorem C11_discretisation_error : forall m offset scale w s,
@@ -70,6 +83,14 @@ Theorem C11_build_total : forall m bg,
   finite_cells QOps m <> [] ->
   exists d, build QOps m bg = Ok d.
 Proof. exact build_Q_total. Qed.
+
+(* ... and so are pvalue and score on the built distribution (the binary search of score()
+   terminates inside the table, no unwrap fails): C11_pvalue_monotone, the brackets and the
+   round trip speak about every score and every p *)
+Theorem C11_methods_total : forall m bg d s p,
+  bg_nonneg bg -> build QOps m bg = Ok d ->
+  (exists q, d_pvalue QOps d s = Ok q) /\ (exists sc, d_score QOps d p = Ok sc).
+Proof. intros m bg d s p Hbg H. apply methods_Q_total. exact (sf_nonempty m bg d Hbg H). Qed.
 
 (* ====================================================================== *)
 (* Stretch                                                                *)
@@ -113,6 +134,22 @@ Theorem C11_score_pvalue_roundtrip : forall m bg d p s q,
   0 < p -> p < 1 ->
   d_score QOps d p = Ok s -> d_pvalue QOps d s = Ok q -> q <= p.
 Proof. exact score_pvalue_roundtrip_Q. Qed.
+
+(* The specification itself: the recursive tail used in the theorems above is literally
+   the probability that a word of independent background-distributed symbols scores at
+   least t -- the sum over all K^M words of their weight. *)
+Theorem C11_tail_is_word_sum : forall m bg t,
+  Forall (fun row : list (cell Q) => length row = length bg) m ->
+  tail_exact m bg t == tail_words m bg t.
+Proof. exact tail_exact_is_word_sum. Qed.
+
+(* ... and so is the distribution of the discretised score that the pdf and the table hold
+   (C11_pdf_is_distribution, C11_sf_is_tail): P(D >= k) is the weight of the words whose
+   discretised score is defined (no skipped symbol) and at least k. *)
+Theorem C11_tailD_is_word_sum : forall data bg k,
+  Forall (fun row : list Z => length row = length bg) data ->
+  tailD data bg k == tailD_words data bg k.
+Proof. exact tailD_is_word_sum. Qed.
 
 (* ====================================================================== *)
 (* The checker used on the implementation's observations is sound, and the *)
@@ -326,3 +363,7 @@ Example ex_ieee_hyps :
   | _ => False
   end.
 Proof. cbv zeta. conj_all; vm_compute; reflexivity. Qed.
+(* the word sum on the example: 4 words of weight 1/4 (the wildcard word has weight 0 and
+   score -inf), P(S >= 3/2) = 1/2 *)
+Example ex_word_sum : tail_words ex_m ex_bg (3 # 2) == 1 # 2 /\ length (all_words 5 1) = 5%nat.
+Proof. split; vm_compute; reflexivity. Qed.
